@@ -171,11 +171,13 @@ def generic_codec_check(pid, tier, seed, t0, runs, gate_pid=None, nontrivial=Non
 def check_C01(pid, tier, seed, t0):
     return generic_codec_check(
         pid, tier, seed, t0,
-        runs=[("tobytes", 3000, 60000, None)],
+        runs=[("tobytes", 3000, 60000, None), ("parallel", 60, 400, None)],
         nontrivial=lambda r: r["impl"] not in ("PANIC", "ERR"),
         rule="random item trees (depth<=5, all seven value types, three population routes, nasty strings, "
              "random framing tags) + 14 targeted body lengths across digit boundaries + all 256 checksum residues; "
-             "non-trivial = serialized without error; distinct = distinct protocol line",
+             "non-trivial = serialized without error; distinct = distinct protocol line; plus the parallel run: eight "
+             "goroutines serialize and parse messages of their own at the same time, every result must be what the "
+             "same call returns alone (no model comparison, judged by the oracles)",
         assumptions=["BeginString and MsgType non-empty (the property's own framing)",
                      "float/time canonical text supplied by the Go formatter (oracle)"])
 
@@ -183,7 +185,7 @@ def check_C01(pid, tier, seed, t0):
 def check_C17(pid, tier, seed, t0):
     return generic_codec_check(
         pid, tier, seed, t0,
-        runs=[("tobytes", 3000, 60000, None)],
+        runs=[("tobytes", 3000, 60000, None), ("parallel", 60, 400, None)],
         nontrivial=lambda r: (r.get("oracle") or {}).get("C17") == "ok",
         rule="same generator as C01; every value built through a randomly chosen public route (constructor, "
              "setter on an empty value, parse, parse-then-set); oracle: field list of the output vs the populated "
@@ -196,7 +198,7 @@ def check_C17(pid, tier, seed, t0):
 def check_C02(pid, tier, seed, t0):
     return generic_codec_check(
         pid, tier, seed, t0,
-        runs=[("roundtrip", 3000, 50000, None), ("lookup", 150, 1500, None)],
+        runs=[("roundtrip", 3000, 50000, None), ("lookup", 150, 1500, None), ("parallel", 60, 400, None)],
         nontrivial=lambda r: r["mode"] == "roundtrip" and r["impl"].startswith("OK"),
         rule="random templates with pairwise distinct tags (look-alike tags d.t / t.d included), nested groups and "
              "components to depth 5, every entry populating its first field, values of all seven types with text "
@@ -222,7 +224,7 @@ def check_C18(pid, tier, seed, t0):
 def check_C03(pid, tier, seed, t0):
     return generic_codec_check(
         pid, tier, seed, t0,
-        runs=[("damage", 40, 600, None)],
+        runs=[("damage", 40, 600, None), ("parallel", 60, 400, None)],
         nontrivial=lambda r: r["mode"] == "damage" and (r.get("oracle") or {}).get("C03") == "ok" or r["mode"] == "validate",
         rule="for every generated valid message the whole damage neighbourhood (255*n substitutions, 256*(n-1) "
              "insertions, n deletions, n prefixes) is run through Unmarshal in strict and non-strict mode on the "
@@ -234,7 +236,7 @@ def check_C03(pid, tier, seed, t0):
 def check_C11(pid, tier, seed, t0):
     return generic_codec_check(
         pid, tier, seed, t0,
-        runs=[("decode", 20000, 1000000, None)],
+        runs=[("decode", 20000, 1000000, None), ("parallel", 60, 400, None)],
         nontrivial=lambda r: True,
         rule="five streams: arbitrary bytes; hostile bodies framed with a solved BodyLength/CheckSum so that they pass "
              "the integrity check (missing '=', empty values, repeated delimiters, count tags at the end, wrong counts); "
